@@ -70,6 +70,16 @@ def run(ctx):
                 body = [kt, vt] + be32(cnt) + [0] * 17
                 cases.append({"id": "c%d" % k, "b": body, "t": 13, "odd": False}); k += 1
                 cases.append({"id": "c%d" % k, "b": [13, 0, 2] + body + [0], "t": 12, "odd": False}); k += 1
+        # values nested deeper than any schema: chains of lists, of structs, and a struct holding such a chain before another field
+        def lchain(d):
+            return [2, 0, 0, 0, 1, 1] if d == 0 else [15, 0, 0, 0, 1] + lchain(d - 1)
+        def schain(d):
+            return [0] if d == 0 else [12, 0, 1] + schain(d - 1) + [0]
+        for d in (63, 64, 65, 66, 70):
+            cases.append({"id": "deep-l%d" % d, "b": lchain(d), "t": 15, "odd": False})
+            cases.append({"id": "deep-s%d" % d, "b": schain(d), "t": 12, "odd": False})
+            cases.append({"id": "deep-sl%d" % d, "b": [15, 0, 1] + lchain(d) + [3, 0, 2, 7, 0], "t": 12, "odd": False})
+            cases.append({"id": "deep-m%d" % d, "b": [11, 12, 0, 0, 0, 1, 0, 0, 0, 1, 107] + schain(d), "t": 13, "odd": False})
         nrand = 6000 if ctx.quick() else 400000
     plain = [c for c in cases if c.get("odd", True)]
     noodd = [c for c in cases if not c.get("odd", True)]
